@@ -1,13 +1,22 @@
 import Wee.Proofs.EvalLemmas
+import Wee.Props.C02Closed
 /-!
 # The coupled material / positional bound of the evaluator (C05 non-terminal clause, C06 `TreeBounded`)
 
-Part 1 (`Wee.F32`, `Wee.Ev`): one-sided versions of "rounding never crosses an integer below 2^24"
-and their consequences for `as i32` and `Evaluation * f32`.
+Part 1 (`Wee.F32`, `Wee.Ev`): one-sided versions of "rounding never crosses an integer below 2^24" and their
+consequences for `as i32` and `Evaluation * f32` (`mulF_mkRat_bounds`: the result is within one unit of the exact
+product, for every weight `n/d ∈ [0, 1]`).
 Part 2: the end-game weight of a position is a function `egwK k` of the single number
-`k = 6·pawns + 16·queens + occupied squares`; a kernel-checked table gives its sign and size.
-Part 3: piece-square values (exact for every piece but the king, two regimes for the king).
-Part 4: the four evaluator terms bounded through piece counts.
+`k = 6·pawns + 16·queens + occupied squares` (`egwF_eq`); a kernel-checked table (`egwK_tab`) gives its sign and size.
+Part 3: piece-square values (`psq_core`; exact for every piece but the king, two regimes for the king).
+Part 4: the four evaluator terms bounded through piece counts (`squares_kingedge`), the coupled bound
+`evalHeuristic_coupled` (score ≤ 0.95·material + 1450) and the term-by-term bound under the promotion potential
+(`termwise_lt_of_potential`).
+Part 5 (`Wee.C02`): weighted piece counts never grow along a listed legal move (`stateW_succ_le`), and a legal position
+has exactly one king a side as a bit count (`oneKingEach_of_legal`).
+
+The final integer arithmetic is `omega` throughout, but always inside small stand-alone lemmas: with the whole context
+of a position in scope the same goals take `omega` 15–20 minutes.
 -/
 namespace Wee.F32
 
@@ -109,10 +118,6 @@ theorem le_mulF {e : Int} {w : Rat} {A : Int} (he : e.natAbs < 16777216) (hA : A
   apply int_le_toI32 (by omega) (by omega)
   exact int_le_round32 hA hhi h
 
-end Wee.Ev
-
-namespace Wee.Ev
-open F32
 
 /-- `Evaluation(e) * (n/d)` for a weight `0 ≤ n/d ≤ 1`: the result is the exact product truncated, i.e.
 strictly within one unit of `n·e/d` (no rounding artefact can cross an integer). -/
@@ -246,9 +251,6 @@ theorem egwF_eq (P Q O : Nat) (hP : P ≤ 32) (hQ : Q ≤ 32) (hO : O ≤ 64) :
       rw [Rat.natCast_add (6 * P + 16 * Q) O]; grind, r32 (by omega)]
   rw [a1, a2]
 
-end Wee
-
-namespace Wee
 /-- what is needed of the end-game weight as a function of `k = 6·pawns + 16·queens + occupied` -/
 def EgwFacts (k : Nat) : Prop :=
   egwK k ≤ 1 ∧ (0 < egwK k → k < 160) ∧ 1 - ((k : Rat) + 1) / 160 ≤ egwK k ∧ (3 / 4 ≤ egwK k → k ≤ 40)
@@ -261,9 +263,7 @@ theorem egwK_tab : (List.range 513).all (fun k => decide (EgwFacts k)) = true :=
 theorem egwK_facts {k : Nat} (h : k ≤ 512) : EgwFacts k := by
   have := List.all_eq_true.1 egwK_tab k (List.mem_range.2 (by omega))
   exact of_decide_eq_true this
-end Wee
-namespace Wee
-open Gen F32
+open F32
 
 /-! ## piece-square values -/
 
@@ -469,9 +469,6 @@ theorem evalSquares_count_bounds (v : Variation) (c : Color) (KL KH : Int)
   obtain ⟨x4, y4⟩ := b4; obtain ⟨x5, y5⟩ := b5; obtain ⟨x6, y6⟩ := b6
   constructor <;> eomega
 
-end Wee
-namespace Wee
-open Gen F32
 
 /-! ## king-to-the-edge, pawn structure, occupancy -/
 
@@ -574,9 +571,6 @@ theorem popcount_occ_le (s : State) : popcount s.pieces.occ ≤ men s .white + m
   unfold PieceMap.occ
   omega
 
-end Wee
-namespace Wee
-open Gen F32
 
 /-! ## all four terms of one position through its piece counts -/
 
@@ -764,4 +758,417 @@ theorem evalHeuristic_coupled (s : State) (c : Color) (hk : ∀ c, pieceCount s 
     clear r2 hsc hso hke hKH hKL
     eomega
 
+
+/-! ## arithmetic of the term-by-term bound under the promotion potential (all `omega`, each in a small context) -/
+
+/-- regime A (`k < 160`): the four sign combinations of material and piece-square difference -/
+theorem core_A (Pc Nc Bc Rc Qc Po No Bo Ro Qo k E Bp : Nat) (m X1 X2 : Int)
+    (hm : m = 100 * (Pc : Int) + 300 * Nc + 350 * Bc + 500 * Rc + 900 * Qc + 10000 * (1 : Nat)
+      - (100 * (Po : Int) + 300 * No + 350 * Bo + 500 * Ro + 900 * Qo + 10000 * (1 : Nat)))
+    (hX1 : X1 = 50 * (Pc : Int) + 20 * Nc + 10 * Bc + 10 * Rc + 5 * Qc + 40
+      - (-20 * (Po : Int) - 50 * No - 20 * Bo - 5 * Ro - 20 * Qo + -50))
+    (hX2 : X2 = 50 * (Po : Int) + 20 * No + 10 * Bo + 10 * Ro + 5 * Qo + 40
+      - (-20 * (Pc : Int) - 50 * Nc - 20 * Bc - 5 * Rc - 20 * Qc + -50))
+    (mc : Pc + Nc + Bc + Rc + Qc + 1 ≤ 16) (mo : Po + No + Bo + Ro + Qo + 1 ≤ 16)
+    (fc : 900 * Pc + 300 * Nc + 350 * Bc + 500 * Rc + 900 * Qc < 9000)
+    (fo : 900 * Po + 300 * No + 350 * Bo + 500 * Ro + 900 * Qo < 9000)
+    (hk1 : 6 * (Pc + Po) + 16 * (Qc + Qo) ≤ k)
+    (hE : E ≤ 120) (hE0 : 40 < k → E = 0)
+    (hB : Bp ≤ 720) (hBc : Pc = 0 → Bp ≤ 400) (hBo : Po = 0 → Bp ≤ 400) (hB0 : Pc = 0 → Po = 0 → Bp = 0) :
+    (m + X1 + E + Bp < 10000) ∧ (m + X2 + E + Bp < 10000) ∧ (-m + X1 + E + Bp < 10000) ∧ (-m + X2 + E + Bp < 10000) := by
+  refine ⟨?_, ?_, ?_, ?_⟩ <;> omega
+
+/-- regime B (`k ≥ 159`, king-to-the-edge vanishes, `KH - KL ≤ k - 78`) -/
+theorem core_B (Pc Nc Bc Rc Qc Po No Bo Ro Qo k Bp : Nat) (KL KH m X1 X2 : Int)
+    (hm : m = 100 * (Pc : Int) + 300 * Nc + 350 * Bc + 500 * Rc + 900 * Qc + 10000 * (1 : Nat)
+      - (100 * (Po : Int) + 300 * No + 350 * Bo + 500 * Ro + 900 * Qo + 10000 * (1 : Nat)))
+    (hX1 : X1 = 50 * (Pc : Int) + 20 * Nc + 10 * Bc + 10 * Rc + 5 * Qc + KH
+      - (-20 * (Po : Int) - 50 * No - 20 * Bo - 5 * Ro - 20 * Qo + KL))
+    (hX2 : X2 = 50 * (Po : Int) + 20 * No + 10 * Bo + 10 * Ro + 5 * Qo + KH
+      - (-20 * (Pc : Int) - 50 * Nc - 20 * Bc - 5 * Rc - 20 * Qc + KL))
+    (mc : Pc + Nc + Bc + Rc + Qc + 1 ≤ 16) (mo : Po + No + Bo + Ro + Qo + 1 ≤ 16)
+    (fc : 900 * Pc + 300 * Nc + 350 * Bc + 500 * Rc + 900 * Qc < 9000)
+    (fo : 900 * Po + 300 * No + 350 * Bo + 500 * Ro + 900 * Qo < 9000)
+    (hk2 : k ≤ 6 * (Pc + Po) + 16 * (Qc + Qo) + (Pc + Nc + Bc + Rc + Qc + 1 + (Po + No + Bo + Ro + Qo + 1)))
+    (hD : KH - KL ≤ (k : Int) - 78)
+    (hB : Bp ≤ 720) (hBc : Pc = 0 → Bp ≤ 400) (hBo : Po = 0 → Bp ≤ 400) (hB0 : Pc = 0 → Po = 0 → Bp = 0) :
+    (m + X1 + (0 : Nat) + Bp < 10000) ∧ (m + X2 + (0 : Nat) + Bp < 10000) ∧
+    (-m + X1 + (0 : Nat) + Bp < 10000) ∧ (-m + X2 + (0 : Nat) + Bp < 10000) := by
+  refine ⟨?_, ?_, ?_, ?_⟩ <;> omega
+
+theorem ke_abs (KEc KEo : Int) (k : Nat) (kec : -60 ≤ KEc ∧ KEc ≤ 60) (keo : -60 ≤ KEo ∧ KEo ≤ 60)
+    (kec0 : KEc ≠ 0 → k ≤ 40) (keo0 : KEo ≠ 0 → k ≤ 40) :
+    (KEc - KEo).natAbs ≤ 120 ∧ (40 < k → (KEc - KEo).natAbs = 0) := by
+  constructor
+  · omega
+  · intro h
+    have : KEc = 0 := by
+      apply Decidable.byContradiction; intro hn; have := kec0 hn; omega
+    have : KEo = 0 := by
+      apply Decidable.byContradiction; intro hn; have := keo0 hn; omega
+    omega
+
+theorem bp_abs (BPc BPo : Int) (Pc Po : Nat) (bc : -720 ≤ BPc ∧ BPc ≤ 0) (bo : -720 ≤ BPo ∧ BPo ≤ 0)
+    (bc0 : Pc = 0 → BPc = -400) (bo0 : Po = 0 → BPo = -400) :
+    (BPc - BPo).natAbs ≤ 720 ∧ (Pc = 0 → (BPc - BPo).natAbs ≤ 400) ∧ (Po = 0 → (BPc - BPo).natAbs ≤ 400) ∧
+    (Pc = 0 → Po = 0 → (BPc - BPo).natAbs = 0) := by
+  refine ⟨by omega, fun h => ?_, fun h => ?_, fun h1 h2 => ?_⟩
+  · have := bc0 h; omega
+  · have := bo0 h; omega
+  · have := bc0 h1; have := bo0 h2; omega
+
+theorem sq_abs (SQc SQo Lc Hc Lo Ho : Int) (sc1 : Lc ≤ SQc) (sc2 : SQc ≤ Hc) (so1 : Lo ≤ SQo) (so2 : SQo ≤ Ho) :
+    ((SQc - SQo).natAbs : Int) ≤ Hc - Lo ∨ ((SQc - SQo).natAbs : Int) ≤ Ho - Lc := by omega
+
+theorem abs_sum4 (m : Int) (S E B : Nat) (X1 X2 : Int) (hS : (S : Int) ≤ X1 ∨ (S : Int) ≤ X2)
+    (h1 : m + X1 + E + B < 10000) (h2 : m + X2 + E + B < 10000)
+    (h3 : -m + X1 + E + B < 10000) (h4 : -m + X2 + E + B < 10000) :
+    m.natAbs + (S + E + B) < 10000 := by omega
+
+theorem kdiff (k : Nat) (KL KH : Int) (hKH : 160 * KH < 4960 + 70 * ((k : Int) - 159))
+    (hKL : -8160 - 90 * ((k : Int) - 159) < 160 * KL) : KH - KL ≤ (k : Int) - 78 := by omega
+
+theorem arith_G_A (Pc Nc Bc Rc Qc Po No Bo Ro Qo k : Nat) (SQc SQo KEc KEo BPc BPo : Int)
+    (mc : Pc + Nc + Bc + Rc + Qc + 1 ≤ 16) (mo : Po + No + Bo + Ro + Qo + 1 ≤ 16)
+    (fc : 900 * Pc + 300 * Nc + 350 * Bc + 500 * Rc + 900 * Qc < 9000)
+    (fo : 900 * Po + 300 * No + 350 * Bo + 500 * Ro + 900 * Qo < 9000)
+    (hk1 : 6 * (Pc + Po) + 16 * (Qc + Qo) ≤ k)
+    (sc1 : -20 * (Pc : Int) - 50 * Nc - 20 * Bc - 5 * Rc - 20 * Qc + -50 ≤ SQc)
+    (sc2 : SQc ≤ 50 * (Pc : Int) + 20 * Nc + 10 * Bc + 10 * Rc + 5 * Qc + 40)
+    (so1 : -20 * (Po : Int) - 50 * No - 20 * Bo - 5 * Ro - 20 * Qo + -50 ≤ SQo)
+    (so2 : SQo ≤ 50 * (Po : Int) + 20 * No + 10 * Bo + 10 * Ro + 5 * Qo + 40)
+    (bc : -720 ≤ BPc ∧ BPc ≤ 0) (bo : -720 ≤ BPo ∧ BPo ≤ 0)
+    (bc0 : Pc = 0 → BPc = -400) (bo0 : Po = 0 → BPo = -400)
+    (kec : -60 ≤ KEc ∧ KEc ≤ 60) (keo : -60 ≤ KEo ∧ KEo ≤ 60)
+    (kec0 : KEc ≠ 0 → k ≤ 40) (keo0 : KEo ≠ 0 → k ≤ 40) :
+    (100 * (Pc : Int) + 300 * Nc + 350 * Bc + 500 * Rc + 900 * Qc + 10000 * (1 : Nat)
+      - (100 * (Po : Int) + 300 * No + 350 * Bo + 500 * Ro + 900 * Qo + 10000 * (1 : Nat))).natAbs
+    + ((SQc - SQo).natAbs + (KEc - KEo).natAbs + (BPc - BPo).natAbs) < 10000 :=
+  have hE := ke_abs KEc KEo k kec keo kec0 keo0
+  have hB := bp_abs BPc BPo Pc Po bc bo bc0 bo0
+  have hS := sq_abs SQc SQo _ _ _ _ sc1 sc2 so1 so2
+  have core := core_A Pc Nc Bc Rc Qc Po No Bo Ro Qo k _ _ _ _ _ rfl rfl rfl mc mo fc fo hk1 hE.1 hE.2 hB.1 hB.2.1 hB.2.2.1 hB.2.2.2
+  abs_sum4 _ _ _ _ _ _ hS core.1 core.2.1 core.2.2.1 core.2.2.2
+
+theorem arith_G_B (Pc Nc Bc Rc Qc Po No Bo Ro Qo k : Nat) (KL KH SQc SQo BPc BPo : Int)
+    (mc : Pc + Nc + Bc + Rc + Qc + 1 ≤ 16) (mo : Po + No + Bo + Ro + Qo + 1 ≤ 16)
+    (fc : 900 * Pc + 300 * Nc + 350 * Bc + 500 * Rc + 900 * Qc < 9000)
+    (fo : 900 * Po + 300 * No + 350 * Bo + 500 * Ro + 900 * Qo < 9000)
+    (hk2 : k ≤ 6 * (Pc + Po) + 16 * (Qc + Qo) + (Pc + Nc + Bc + Rc + Qc + 1 + (Po + No + Bo + Ro + Qo + 1)))
+    (hKH : 160 * KH < 4960 + 70 * ((k : Int) - 159)) (hKL : -8160 - 90 * ((k : Int) - 159) < 160 * KL)
+    (sc1 : -20 * (Pc : Int) - 50 * Nc - 20 * Bc - 5 * Rc - 20 * Qc + KL ≤ SQc)
+    (sc2 : SQc ≤ 50 * (Pc : Int) + 20 * Nc + 10 * Bc + 10 * Rc + 5 * Qc + KH)
+    (so1 : -20 * (Po : Int) - 50 * No - 20 * Bo - 5 * Ro - 20 * Qo + KL ≤ SQo)
+    (so2 : SQo ≤ 50 * (Po : Int) + 20 * No + 10 * Bo + 10 * Ro + 5 * Qo + KH)
+    (bc : -720 ≤ BPc ∧ BPc ≤ 0) (bo : -720 ≤ BPo ∧ BPo ≤ 0)
+    (bc0 : Pc = 0 → BPc = -400) (bo0 : Po = 0 → BPo = -400) :
+    (100 * (Pc : Int) + 300 * Nc + 350 * Bc + 500 * Rc + 900 * Qc + 10000 * (1 : Nat)
+      - (100 * (Po : Int) + 300 * No + 350 * Bo + 500 * Ro + 900 * Qo + 10000 * (1 : Nat))).natAbs
+    + ((SQc - SQo).natAbs + 0 + (BPc - BPo).natAbs) < 10000 :=
+  have hB := bp_abs BPc BPo Pc Po bc bo bc0 bo0
+  have hS := sq_abs SQc SQo _ _ _ _ sc1 sc2 so1 so2
+  have core := core_B Pc Nc Bc Rc Qc Po No Bo Ro Qo k _ KL KH _ _ _ rfl rfl rfl mc mo fc fo hk2 (kdiff k KL KH hKH hKL)
+    hB.1 hB.2.1 hB.2.2.1 hB.2.2.2
+  abs_sum4 _ _ _ _ _ _ hS core.1 core.2.1 core.2.2.1 core.2.2.2
+
+
+/-! ## the promotion potential -/
+
+/-- the promotion potential of one side: piece worths with every pawn counted as a queen (king excluded) -/
+def phi (s : State) (c : Color) : Nat :=
+  900 * pieceCount s c .pawn + 300 * pieceCount s c .knight + 350 * pieceCount s c .bishop
+    + 500 * pieceCount s c .rook + 900 * pieceCount s c .queen
+
+/-- **The term-by-term bound from the potential.**  One king and at most 16 men a side, and a promotion potential
+below 9000 for both sides ⇒ `|Δworths| + |Δsquares| + |Δking-edge| + |Δpawns| < 10000` (all weights taken as 1).
+This is the quantity `MaterialBounded` of `Wee/Proofs/MateLemmas.lean` asks to be `< 10000`. -/
+theorem termwise_lt_of_potential (s : State) (c : Color) (hk : ∀ c, pieceCount s c .king = 1)
+    (hmen : ∀ c, men s c ≤ 16) (hphi : ∀ c, phi s c < 9000) :
+    (evalWorths (Variation.of s) c - evalWorths (Variation.of s) c.opp).natAbs +
+      ((evalSquares (Variation.of s) c - evalSquares (Variation.of s) c.opp).natAbs
+        + (evalKingEdge (Variation.of s) c - evalKingEdge (Variation.of s) c.opp).natAbs
+        + (evalBadPawns (Variation.of s) c - evalBadPawns (Variation.of s) c.opp).natAbs) < 10000 := by
+  obtain ⟨k, KL, KH, hk1, hk2, hsq, hreg⟩ := squares_kingedge s hk hmen
+  have p1 := evalBadPawns_bounds (Variation.of s) c
+  have p2 := evalBadPawns_bounds (Variation.of s) c.opp
+  have q1 := evalBadPawns_no_pawns (Variation.of s) c
+  have q2 := evalBadPawns_no_pawns (Variation.of s) c.opp
+  have hsc := hsq c; have hso := hsq c.opp
+  have kc := hk c; have ko := hk c.opp
+  have mc := hmen c; have mo := hmen c.opp
+  have fc := hphi c; have fo := hphi c.opp
+  have hmm : men s .white + men s .black = men s c + men s c.opp := by cases c <;> simp [Color.opp] <;> omega
+  have hbase : egwBase s = 6 * (pieceCount s c .pawn + pieceCount s c.opp .pawn) + 16 * (pieceCount s c .queen + pieceCount s c.opp .queen) := by
+    unfold egwBase; cases c <;> simp [Color.opp] <;> omega
+  rw [men_eq] at mc mo
+  replace hk2 : k ≤ egwBase s + (men s c + men s c.opp) := by omega
+  rw [men_eq, men_eq] at hk2
+  rw [hbase] at hk1 hk2
+  clear hmm hbase hsq hk hmen hphi
+  rw [evalWorths_eq, evalWorths_eq]
+  simp only [pieceCount_of] at q1 q2 ⊢
+  unfold sqHigh sqLow at hsc hso
+  unfold phi at fc fo
+  generalize evalSquares (Variation.of s) c = SQc at *
+  generalize evalSquares (Variation.of s) c.opp = SQo at *
+  generalize evalBadPawns (Variation.of s) c = BPc at *
+  generalize evalBadPawns (Variation.of s) c.opp = BPo at *
+  generalize pieceCount s c .pawn = Pc at *
+  generalize pieceCount s c .knight = Nc at *
+  generalize pieceCount s c .bishop = Bc at *
+  generalize pieceCount s c .rook = Rc at *
+  generalize pieceCount s c .queen = Qc at *
+  generalize pieceCount s c .king = Kc at *
+  generalize pieceCount s c.opp .pawn = Po at *
+  generalize pieceCount s c.opp .knight = No at *
+  generalize pieceCount s c.opp .bishop = Bo at *
+  generalize pieceCount s c.opp .rook = Ro at *
+  generalize pieceCount s c.opp .queen = Qo at *
+  generalize pieceCount s c.opp .king = Ko at *
+  subst kc ko
+  rcases hreg with ⟨hA, rfl, rfl, hke, hke0⟩ | ⟨hB, hKH, hKL, hke⟩
+  · exact arith_G_A Pc Nc Bc Rc Qc Po No Bo Ro Qo k SQc SQo _ _ BPc BPo mc mo fc fo hk1 hsc.1 hsc.2 hso.1 hso.2
+      p1 p2 q1 q2 (hke c) (hke c.opp) (hke0 c) (hke0 c.opp)
+  · have hz : (evalKingEdge (Variation.of s) c - evalKingEdge (Variation.of s) c.opp).natAbs = 0 := by
+      rw [hke c, hke c.opp]; rfl
+    rw [hz]
+    exact arith_G_B Pc Nc Bc Rc Qc Po No Bo Ro Qo k KL KH SQc SQo BPc BPo mc mo fc fo hk2 hKH hKL hsc.1 hsc.2 hso.1 hso.2
+      p1 p2 q1 q2
+
 end Wee
+
+namespace Wee.C02
+open Wee.C10 (DisjointBoard)
+
+/-! ## weighted piece counts along a move -/
+
+/-- weight of a mailbox cell for colour `c` -/
+def cellW (ω : Piece → Nat) (c : Color) : Option (Color × Piece) → Nat
+  | some (c', p) => if c' = c then ω p else 0
+  | Option.none => 0
+
+/-- weighted number of men of colour `c` on the squares below `N` -/
+def prefW (ω : Piece → Nat) (c : Color) (f : Nat → Option (Color × Piece)) (N : Nat) : Nat :=
+  ((List.range N).map (fun n => cellW ω c (f n))).sum
+
+theorem prefW_succ (ω : Piece → Nat) (c : Color) (f : Nat → Option (Color × Piece)) (N : Nat) :
+    prefW ω c f (N + 1) = prefW ω c f N + cellW ω c (f N) := by
+  unfold prefW; rw [List.range_succ, List.map_append, List.sum_append]; simp
+
+/-- writing one cell changes the weighted count by the difference of the two cell weights -/
+theorem prefW_upd (ω : Piece → Nat) (c : Color) (f : Nat → Option (Color × Piece)) (sq : Nat)
+    (x : Option (Color × Piece)) (N : Nat) :
+    (sq < N → prefW ω c (upd f sq x) N + cellW ω c (f sq) = prefW ω c f N + cellW ω c x) ∧
+    (N ≤ sq → prefW ω c (upd f sq x) N = prefW ω c f N) := by
+  induction N with
+  | zero => exact ⟨fun h => absurd h (by omega), fun _ => rfl⟩
+  | succ N ih =>
+    rw [prefW_succ, prefW_succ]
+    constructor
+    · intro h
+      by_cases e : sq = N
+      · subst e
+        rw [ih.2 (Nat.le_refl _), upd_same]; omega
+      · rw [upd_ne _ _ _ _ (fun e' => e e'.symm)]
+        have := ih.1 (by omega); omega
+    · intro h
+      rw [ih.2 (by omega), upd_ne _ _ _ _ (by omega)]
+
+theorem prefW_upd_le (ω : Piece → Nat) (c : Color) (f : Nat → Option (Color × Piece)) (sq : Nat)
+    (x : Option (Color × Piece)) (N : Nat) : prefW ω c (upd f sq x) N ≤ prefW ω c f N + cellW ω c x := by
+  by_cases h : sq < N
+  · have := (prefW_upd ω c f sq x N).1 h; omega
+  · have := (prefW_upd ω c f sq x N).2 (by omega); omega
+
+theorem prefW_upd_none_le (ω : Piece → Nat) (c : Color) (f : Nat → Option (Color × Piece)) (sq : Nat) (N : Nat) :
+    prefW ω c (upd f sq Option.none) N ≤ prefW ω c f N := by
+  have := prefW_upd_le ω c f sq Option.none N
+  simpa [cellW] using this
+
+/-- number of set bits below `N` -/
+def prefC (b : UInt64) (N : Nat) : Nat := ((List.range N).filter (test b)).length
+
+theorem prefC_succ (b : UInt64) (N : Nat) : prefC b (N + 1) = prefC b N + (if test b N then 1 else 0) := by
+  unfold prefC; rw [List.range_succ, List.filter_append, List.length_append]
+  cases h : test b N <;> simp [h]
+
+theorem prefC_64 (b : UInt64) : prefC b 64 = popcount b := rfl
+
+/-- weighted sum over the six piece kinds -/
+def wsum (ω : Piece → Nat) (g : Piece → Nat) : Nat :=
+  ω .pawn * g .pawn + ω .knight * g .knight + ω .bishop * g .bishop + ω .rook * g .rook + ω .queen * g .queen
+    + ω .king * g .king
+
+/-- mailbox weight = weighted bit counts of the six bitboards -/
+theorem prefW_eq_wsum (ω : Piece → Nat) (c : Color) {m : PieceMap} {f : Nat → Option (Color × Piece)} (hr : Repr m f)
+    (N : Nat) (hN : N ≤ 64) : prefW ω c f N = wsum ω (fun p => prefC (m.get c p) N) := by
+  induction N with
+  | zero => simp [prefW, prefC, wsum]
+  | succ N ih =>
+    rw [prefW_succ, ih (by omega)]
+    unfold wsum
+    simp only [prefC_succ]
+    have hc := hr N (by omega)
+    have key : cellW ω c (f N) =
+        ω .pawn * (if test (m.get c .pawn) N then 1 else 0) + ω .knight * (if test (m.get c .knight) N then 1 else 0)
+        + ω .bishop * (if test (m.get c .bishop) N then 1 else 0) + ω .rook * (if test (m.get c .rook) N then 1 else 0)
+        + ω .queen * (if test (m.get c .queen) N then 1 else 0) + ω .king * (if test (m.get c .king) N then 1 else 0) := by
+      have t : ∀ p, test (m.get c p) N = decide (f N = some (c, p)) := by
+        intro p
+        have := hc c p
+        cases h1 : test (m.get c p) N
+        · symm; rw [decide_eq_false_iff_not]; intro e; rw [this.2 e] at h1; cases h1
+        · symm; rw [decide_eq_true_eq]; exact this.1 h1
+      simp only [t]
+      cases hf : f N with
+      | none => simp [cellW]
+      | some cp =>
+        obtain ⟨c', q⟩ := cp
+        have hq : q ≠ Piece.none := by
+          have := hr N (by omega); rw [hf] at this; exact cellIs_piece_ne_none this
+        by_cases hcc : c' = c
+        · subst hcc
+          cases q <;> first | exact absurd rfl hq | simp [cellW]
+        · have : ∀ p, ¬ (some (c', q) = some (c, p)) := by
+            intro p e; exact hcc (congrArg Prod.fst (Option.some.inj e))
+          simp [cellW, hcc, this]
+    rw [key]
+    simp only [Nat.mul_add]
+    omega
+
+
+theorem cellW_some (ω : Piece → Nat) (c c' : Color) (p : Piece) :
+    cellW ω c (some (c', p)) = if c' = c then ω p else 0 := rfl
+
+/-- **no move increases a weighted count** (captures remove, castling relocates, promotion replaces a pawn by a
+piece that weighs no more than a pawn): the mailbox of the successor weighs at most the mailbox of `s` -/
+theorem prefW_expected_le (ω : Piece → Nat) (hω : ∀ r, ω r ≤ ω .pawn) (c : Color) {s : State} {mv : Move} {p : Piece}
+    (h : MFits s mv p) : prefW ω c (expectedF s mv p) 64 ≤ prefW ω c s.pieces.pieceAt 64 := by
+  -- origin cleared, victim removed, mover put down
+  have hmid : prefW ω c (midF s mv p) 64 ≤ prefW ω c s.pieces.pieceAt 64 := by
+    unfold midF
+    simp only []
+    have h1 := (prefW_upd ω c s.pieces.pieceAt (Move.origin mv) Option.none 64).1 h.o_lt
+    rw [h.mover] at h1
+    have h1' : prefW ω c (upd s.pieces.pieceAt (Move.origin mv) Option.none) 64 + cellW ω c (some (s.turn, p)) =
+        prefW ω c s.pieces.pieceAt 64 := by simpa [cellW] using h1
+    have h2 : prefW ω c (if Move.isEnPassant mv = true then
+          upd (upd s.pieces.pieceAt (Move.origin mv) Option.none) (Move.origin mv / 8 * 8 + Move.dest mv % 8) Option.none
+        else upd s.pieces.pieceAt (Move.origin mv) Option.none) 64 ≤
+        prefW ω c (upd s.pieces.pieceAt (Move.origin mv) Option.none) 64 := by
+      split
+      · exact prefW_upd_none_le ω c _ _ 64
+      · exact Nat.le_refl _
+    have h3 := prefW_upd_le ω c (if Move.isEnPassant mv = true then
+          upd (upd s.pieces.pieceAt (Move.origin mv) Option.none) (Move.origin mv / 8 * 8 + Move.dest mv % 8) Option.none
+        else upd s.pieces.pieceAt (Move.origin mv) Option.none) (Move.dest mv) (some (s.turn, p)) 64
+    omega
+  -- promotion
+  have hpromo : prefW ω c (promoF s mv p) 64 ≤ prefW ω c (midF s mv p) 64 := by
+    unfold promoF
+    cases hpr : Move.promotion mv with
+    | none => exact Nat.le_refl _
+    | some r =>
+      simp only []
+      have hp := (h.promo r hpr).1
+      subst hp
+      have h1 := (prefW_upd ω c (midF s mv Piece.pawn) (Move.dest mv) (some (s.turn, r)) 64).1 h.d_lt
+      rw [midF_dest, cellW_some, cellW_some] at h1
+      have := hω r
+      split at h1 <;> omega
+  -- castling
+  have hcastle : prefW ω c (expectedF s mv p) 64 ≤ prefW ω c (promoF s mv p) 64 := by
+    unfold expectedF
+    cases hcs : Move.castleSide mv with
+    | none => exact Nat.le_refl _
+    | some sd =>
+      obtain ⟨hpk, hcap, hpr, ho, hsd⟩ := h.castle sd hcs
+      obtain ⟨hep, _⟩ := h.quiet hcap
+      have hF : promoF s mv p = upd (upd s.pieces.pieceAt (Move.origin mv) Option.none) (Move.dest mv) (some (s.turn, p)) := by
+        unfold promoF midF; simp only [hpr, hep, Bool.false_eq_true, if_false]
+      have ho' := homeSq_cases s.turn
+      rw [← ho] at ho'
+      cases sd with
+      | king =>
+        simp only [] at hsd ⊢
+        obtain ⟨hd, hr, he⟩ := hsd
+        have hg : promoF s mv p (Move.origin mv + 3) = some (s.turn, Piece.rook) := by
+          rw [hF, upd_ne _ _ _ _ (by omega), upd_ne _ _ _ _ (by omega)]; exact hr
+        have h1 := (prefW_upd ω c (promoF s mv p) (Move.origin mv + 3) Option.none 64).1 (by omega)
+        rw [hg] at h1
+        have h2 := prefW_upd_le ω c (upd (promoF s mv p) (Move.origin mv + 3) Option.none) (Move.origin mv + 1)
+          (some (s.turn, Piece.rook)) 64
+        have : cellW ω c (Option.none : Option (Color × Piece)) = 0 := rfl
+        omega
+      | queen =>
+        simp only [] at hsd ⊢
+        obtain ⟨hd, hr, he⟩ := hsd
+        have hg : promoF s mv p (Move.origin mv - 4) = some (s.turn, Piece.rook) := by
+          rw [hF, upd_ne _ _ _ _ (by omega), upd_ne _ _ _ _ (by omega)]; exact hr
+        have h1 := (prefW_upd ω c (promoF s mv p) (Move.origin mv - 4) Option.none 64).1 (by omega)
+        rw [hg] at h1
+        have h2 := prefW_upd_le ω c (upd (promoF s mv p) (Move.origin mv - 4) Option.none) (Move.origin mv - 1)
+          (some (s.turn, Piece.rook)) 64
+        have : cellW ω c (Option.none : Option (Color × Piece)) = 0 := rfl
+        omega
+  omega
+
+/-- the weighted count of a state -/
+def stateW (ω : Piece → Nat) (s : State) (c : Color) : Nat := wsum ω (fun p => popcount (s.pieces.get c p))
+
+theorem stateW_eq (ω : Piece → Nat) (s : State) (c : Color) (hd : DisjointBoard s.pieces) :
+    stateW ω s c = prefW ω c s.pieces.pieceAt 64 := by
+  rw [prefW_eq_wsum ω c (repr_pieceAt hd) 64 (Nat.le_refl _)]; rfl
+
+/-- **weighted counts never grow along a listed legal move** (legal position without overlaps) -/
+theorem stateW_succ_le (ω : Piece → Nat) (hω : ∀ r, ω r ≤ ω .pawn) (s : State) (hl : LegalPos s = true)
+    (hd : DisjointBoard s.pieces) (r : Move × State) (hr : r ∈ legalMoves s) (c : Color) :
+    stateW ω r.2 c ≤ stateW ω s c := by
+  obtain ⟨sm, hfit⟩ := C02_generatedMovesFit s hl hd r hr
+  obtain ⟨p, hm, _⟩ := fits_model hfit
+  obtain ⟨map, hpm, hrep⟩ := perform_repr hm
+  have hperf := mem_legalMoves hr
+  rw [hpm] at hperf
+  simp only [Option.some.injEq, Except.ok.injEq] at hperf
+  have hmap : r.2.pieces = map := by rw [← hperf]; rfl
+  have h1 : stateW ω r.2 c = prefW ω c (expectedF s r.1 p) 64 := by
+    rw [prefW_eq_wsum ω c hrep 64 (Nat.le_refl _), ← hmap]; rfl
+  rw [h1, stateW_eq ω s c hd]
+  exact prefW_expected_le ω hω c hm
+
+
+theorem popcount_bit : ∀ q : Fin 64, popcount (bit q.val) = 1 := by decide
+
+/-- a legal position without overlaps has exactly one king of either colour, as a bit count -/
+theorem oneKingEach_of_legal (s : State) (hl : LegalPos s = true) (hd : DisjointBoard s.pieces) (c : Color) :
+    popcount (s.pieces.get c .king) = 1 := by
+  have hl' := hl
+  unfold LegalPos Spec.LegalPos at hl'
+  simp only [Bool.and_eq_true, beq_iff_eq] at hl'
+  obtain ⟨⟨⟨⟨⟨⟨⟨⟨⟨_, hw⟩, hb⟩, _⟩, _⟩, _⟩, _⟩, _⟩, _⟩, _⟩ := hl'
+  have hc : Spec.count (abs s) (absColor c) Spec.Kind.king = 1 := by
+    cases c
+    · exact hw
+    · exact hb
+  obtain ⟨q, hq, hat, huniq⟩ := (count_eq_one_iff _ _ _).1 hc
+  have key : ∀ n, n < 64 → (test (s.pieces.get c .king) n = true ↔ (abs s).at n = some (absColor c, Spec.Kind.king)) := by
+    intro n _
+    rw [C10.abs_at, C10.absCell_iff hd]
+    constructor
+    · intro ht; exact ⟨Piece.king, rfl, ht⟩
+    · rintro ⟨p, hp, ht⟩
+      have : p = Piece.king := by cases p <;> simp [absKind] at hp ⊢
+      subst this; exact ht
+  have hb : s.pieces.get c .king = bit q := by
+    apply ext
+    intro n hn
+    rw [test_bit q n hq]
+    cases ht : test (s.pieces.get c .king) n
+    · symm; rw [decide_eq_false_iff_not]; intro e; subst e
+      rw [(key q hq).2 hat] at ht; cases ht
+    · symm; rw [decide_eq_true_eq]
+      exact (huniq n hn ((key n hn).1 ht)).symm
+  rw [hb]
+  exact popcount_bit ⟨q, hq⟩
+
+end Wee.C02
